@@ -98,6 +98,37 @@ fn main() {
             }
             worst
         }
+        Some("scaleprobe") => {
+            // development aid: run the reader schedule over fault-free scale images and print the
+            // worst work / allocation ratios
+            let n: u64 = a.get(2).and_then(|x| x.parse().ok()).unwrap_or(100);
+            let mut worst = (0u64, 0u64, 0u64, 0u64);
+            for seed in 0..n {
+                let case = modee::CorruptCase { seed: seeds::SeedSpec::Scale { seed }, faults: vec![], labels: vec![], split: seed % 2 == 0, init_faults: vec![], late: None, extra_ids: vec![], sweep: false };
+                let mut cfg = sched::SessionCfg::standard();
+                cfg.measure_alloc = true;
+                let mut st = stats::Stats::default();
+                let t0 = std::time::Instant::now();
+                let run = modee::run_case(&case, cfg, &mut st);
+                let ms = t0.elapsed().as_millis();
+                let mut w = (0u64, 0u64, 0u64, 0u64);
+                let mut wapi = ("", "", "");
+                for rec in &run.recs {
+                    if rec.n == 0 { continue; }
+                    let a = rec.ops * 1000 / rec.n;
+                    let b = rec.alloc.cumulative as u64 * 1000 / rec.n;
+                    let c = rec.alloc.peak_over_base as u64 * 1000 / rec.n;
+                    if a > w.0 { w.0 = a; wapi.0 = rec.api; }
+                    if b > w.1 { w.1 = b; wapi.1 = rec.api; }
+                    if c > w.2 { w.2 = c; wapi.2 = rec.api; }
+                    w.3 = w.3.max(rec.micros);
+                }
+                println!("seed {seed}: n={} calls={} {ms}ms ops/byte={:.1}({}) cum/byte={:.1}({}) peak/byte={:.1}({}) slowest={}us", run.image_len, run.recs.len(), w.0 as f64 / 1000.0, wapi.0, w.1 as f64 / 1000.0, wapi.1, w.2 as f64 / 1000.0, wapi.2, w.3);
+                worst.0 = worst.0.max(w.0); worst.1 = worst.1.max(w.1); worst.2 = worst.2.max(w.2); worst.3 = worst.3.max(w.3);
+            }
+            println!("WORST ops/byte={:.1} cum/byte={:.1} peak/byte={:.1} slowest={}us", worst.0 as f64 / 1000.0, worst.1 as f64 / 1000.0, worst.2 as f64 / 1000.0, worst.3);
+            0
+        }
         Some("sweepinfo") => {
             println!("sweep_total={}", modee::sweep_total());
             0
